@@ -386,6 +386,26 @@ func prettyAll(xs []string) []string {
 }
 
 func c16c(c *Ctx) {
+	// (o) format(): the token handed back for the formatted text is the token of the text
+	// itself (the one whose literal is formatted), not that of a later parameter
+	if fn := c.Fn("parser.Parser.parseFormatStringOperator"); fn != nil {
+		if ft := c.Fn("parser.FontConfig.FormatText"); ft != nil {
+			text := ""
+			for _, call := range callsToIn(fn, ft) {
+				text = c.term(fn, call.Common().Args[1])
+			}
+			n := 0
+			for _, r := range returnsOf(fn) {
+				if !c.mayBeSuccessRet(fn, r) || !isSuccessReturn(r) {
+					continue
+				}
+				n++
+				got := c.term(fn, r.Results[0])
+				c.Check(text != "" && got+".Literal" == text, fmt.Sprintf("format/returns-text-token#%d", n), c.W.Pos(r.Pos()), "format() returns the token of the text it formatted", "format() returns token "+pretty(got)+" but formats "+pretty(text)+": a line marker or error built from the returned token would name the line of a different token (e.g. a font id written on a later line)")
+			}
+			c.Check(n > 0, "format/returns-text-token", c.W.FuncPos(fn), "format() has a successful return", "no successful return found in parseFormatStringOperator")
+		}
+	}
 	// (i) token literals synthesised in the parser
 	nLit := 0
 	for _, fn := range c.W.FuncsOf("parser") {
